@@ -42,8 +42,8 @@ CONFIG = {
         "encoding/json decoding of the content into map[string]RawMessage / {membership} / MemberContent after exactFieldsOnly, "
         "spec.NewUserID(sender, true) modelled (VModel.Signers / VModel.Event)",
         "the auth rules' side of the tie (auth_authoriser_required) is NewMemberContentFromEvent as modelled by Signers.memberContent and "
-        "compared with the real function by op member_reading; VModel/Auth.lean's decodeMemberContent (C07) is related to it by "
-        "memberContent_eq_auth",
+        "compared with the real function by op member_reading; VModel/Auth.lean's decodeMemberContent (C07) reads the same exact "
+        "member names and is related to it, for every content, by memberContent_eq_auth",
     ],
     "assumptions": [
         "userIDForSender is the standard resolver spec.NewUserID(sender, true); a (nil, nil) answer ('no sender signature needed') "
